@@ -1,7 +1,9 @@
 (* Driver for the extracted C13 models.  One case per input line, all tokens integers:
-     np p..  nq q..  nk k..  nd d..  va  kw  npos  nkws kws..
-   (va / kw = -1 when the signature has no *args / **kwargs).  Output, one line per case:
-     <wf> TAB <bind_py> TAB <bind_py_fixed> TAB <bind_c>
+     np p..  nq q..  nk k..  nd d..  va  kw  npos  nkws kws..  [va_annotated]
+   (va / kw = -1 when the signature has no *args / **kwargs; va_annotated = 1 when a stub annotates
+   *args, default 0; the stub mapper's placeholder names are argname i = 14 + i, the ids the harness
+   gives to "_0", "_1", ...).  Output, one line per case:
+     <wf> TAB <bind_py> TAB <bind_py_fixed> TAB <bind_c> TAB <bind_pytd>
    wf: 1/0 (wf_sigb && nodupb kws).  A result is  E:<kind>:<names joined by .>  or
    O:<v,v,...> with one value per name of all_names: Pi  Kk  D  Vi.j  Wk.l  - (unbound). *)
 open Bind_model
@@ -50,7 +52,10 @@ let () =
       let np = nat_of_int (next ()) in
       let ks = lst () in
       let sh = { npos = np; kws = ks } in
+      let va_annot = !i < Array.length toks && next () = 1 in
+      let argname k = nat_of_int (14 + int_of_nat k) in
       let wf = if wf_sigb s && nodupb ks then "1" else "0" in
-      print_endline (String.concat "\t" [wf; py s (bind_py s sh); py s (bind_py_fixed s sh); c s (bind_c s sh)])
+      print_endline (String.concat "\t" [wf; py s (bind_py s sh); py s (bind_py_fixed s sh); c s (bind_c s sh);
+                                         py s (bind_pytd va_annot argname s sh)])
     done
   with End_of_file -> ()
